@@ -435,10 +435,8 @@ theorem verifyAppImpl_notTooHigh (s : Sess) (m : InMsg) (r : Rej) (h : (verifyAp
   unfold verifyAppImpl at h
   split at h
   · rename_i hv
-    unfold validate at hv
-    split at hv
-    · cases hv; cases h; rfl
-    · cases hv
+    obtain ⟨_, _, rfl⟩ := validate_plain hv
+    cases h; rfl
   · simp only [] at h
     unfold callbackVerdict at h
     repeat' split at h
